@@ -173,16 +173,20 @@ class Ctx:
         outs = {}
 
         def start(path):
+            # output goes to a file, not a pipe: a full pipe must never stall a shard while its timeout runs
+            f = open(path + ".out", "w")
             return subprocess.Popen(["timeout", str(timeout), "coqc", "-Q", COQ, "JV", "-w", "-all", path],
-                                    cwd=self.tmp, stdout=subprocess.PIPE, stderr=subprocess.STDOUT, text=True)
+                                    cwd=self.tmp, stdout=f, stderr=subprocess.STDOUT, text=True), f
         idx = 0
         active = []
         while idx < len(procs) or active:
             while idx < len(procs) and len(active) < NCPU:
                 active.append((idx, start(procs[idx][0])))
                 idx += 1
-            k, p = active.pop(0)
-            out, _ = p.communicate()
+            k, (p, f) = active.pop(0)
+            p.wait()
+            f.close()
+            out = open(procs[k][0] + ".out").read()
             if p.returncode != 0:
                 raise RuntimeError("coqc failed on %s:\n%s" % (procs[k][0], out[-3000:]))
             outs[k] = out
